@@ -126,15 +126,11 @@ def multimapAgree (a b : Headers) : Bool :=
 def identityAgree (d id : Identity) : Bool :=
   d.name == id.name && d.groups == id.groups && multimapAgree d.extra id.extra
 
-/-- the decidable hypothesis of exactness, part 1: no upper-case ASCII letter in an extra key
-    (HTTP header names cannot carry case) -/
-def extraKeysLower (id : Identity) : Bool := id.extra.all (fun e => e.1.all (fun c => !isUpper c))
-
 /-- a header field value as it arrives: optional white space at both ends is not part of a value
     (RFC 7230 §3.2); on the upgrade path the writer has turned CR / LF into spaces before -/
 def carried (upgrade : Bool) (v : Str) : Str := trimOWS (if upgrade then newlineToSpace v else v)
 
-/-- part 2: every name, group and extra value arrives as it is (no white space at either end; no CR / LF) -/
+/-- the decidable hypothesis of exactness: every name, group and extra value arrives as it is (no white space at either end; no CR / LF) -/
 def valuesCarried (upgrade : Bool) (id : Identity) : Bool :=
   carried upgrade id.name == id.name && id.groups.all (fun g => carried upgrade g == g) &&
   id.extra.all (fun e => e.2.all (fun v => carried upgrade v == v))
@@ -143,7 +139,8 @@ def valuesCarried (upgrade : Bool) (id : Identity) : Bool :=
 def carryIdentity (upgrade : Bool) (id : Identity) : Identity :=
   ⟨carried upgrade id.name, id.groups.map (carried upgrade), id.extra.map (fun e => (e.1, e.2.map (carried upgrade)))⟩
 
-/-- the identity with its extra keys lower-cased -/
+/-- the identity with its extra keys lower-cased: what arrived before `headerKeyEscape` escaped upper-case letters
+    (/repo 0231ee3); only used by the judge to name that regression -/
 def lowerKeys (id : Identity) : Identity :=
   ⟨id.name, id.groups, id.extra.map (fun e => (toLower e.1, e.2))⟩
 
@@ -160,7 +157,7 @@ inductive Class where
   | impersonationHeaders
   /-- the upstream is told to act as another identity -/
   | identityMismatch
-  /-- … differing only by the case of extra keys (known limitation of the wire format) -/
+  /-- … differing only by the case of extra keys (the repaired defect C02-extra-key-case, should it return) -/
   | extraKeyCase
   /-- … differing only by white space at the ends of values, or CR / LF turned into spaces on the upgrade path
       (known limitation of the wire format) -/
